@@ -334,12 +334,79 @@ thread_local! {
     pub static DD_LENIENT: RefCell<bool> = const { RefCell::new(false) };
 }
 
+thread_local! {
+    /// accurate mode: ln / exp / powf are evaluated in double-double arithmetic (sin / cos still through f64)
+    pub static DD_ACCURATE: RefCell<bool> = const { RefCell::new(false) };
+}
+
 fn dd_transcendental(name: &str, x: &DD, f: impl Fn(f64) -> f64) -> DD {
-    if DD_LENIENT.with(|l| *l.borrow()) {
+    if DD_LENIENT.with(|l| *l.borrow()) || DD_ACCURATE.with(|l| *l.borrow()) {
         DD::from(f(x.hi))
     } else {
         panic!("DD: transcendental {name} not available")
     }
+}
+
+const LN2_DD: DD = DD { hi: 0.6931471805599453, lo: 2.3190468138462996e-17 };
+
+impl DD {
+    fn scale2(&self, k: i32) -> DD {
+        let f = 2f64.powi(k);
+        DD { hi: self.hi * f, lo: self.lo * f }
+    }
+    /// exp in double-double arithmetic: x = k ln2 + r, r/256 by Taylor, 8 squarings
+    pub fn exp_dd(x: &DD) -> DD {
+        if x.hi.is_nan() {
+            return DD::from(f64::NAN);
+        }
+        if x.hi > 709.0 {
+            return DD::from(f64::INFINITY);
+        }
+        if x.hi < -745.0 {
+            return DD::from(0.0);
+        }
+        let k = (x.hi / LN2_DD.hi).round();
+        let r = DD::add_dd(x, &DD::neg_dd(&DD::mul_dd(&LN2_DD, &DD::from(k))));
+        let r = r.scale2(-8);
+        let mut term = DD::from(1.0);
+        let mut sum = DD::from(1.0);
+        for n in 1..=14 {
+            term = DD::div_dd(&DD::mul_dd(&term, &r), &DD::from(n as f64));
+            sum = DD::add_dd(&sum, &term);
+        }
+        for _ in 0..8 {
+            sum = DD::mul_dd(&sum, &sum);
+        }
+        // 2^k in two steps to stay inside the exponent range
+        let k = k as i32;
+        sum.scale2(k / 2).scale2(k - k / 2)
+    }
+    /// ln by Newton on exp: y <- y + x exp(-y) - 1
+    pub fn ln_dd(x: &DD) -> DD {
+        if !(x.hi > 0.0) {
+            return DD::from(if x.hi == 0.0 { f64::NEG_INFINITY } else { f64::NAN });
+        }
+        if x.hi.is_infinite() {
+            return DD::from(f64::INFINITY);
+        }
+        let mut y = DD::from(x.hi.ln());
+        for _ in 0..2 {
+            let e = DD::exp_dd(&DD::neg_dd(&y));
+            let corr = DD::add_dd(&DD::mul_dd(x, &e), &DD::from(-1.0));
+            y = DD::add_dd(&y, &corr);
+        }
+        y
+    }
+    pub fn pow_dd(x: &DD, p: &DD) -> DD {
+        if x.hi == 0.0 {
+            return DD::from(if p.hi > 0.0 { 0.0 } else if p.hi == 0.0 { 1.0 } else { f64::INFINITY });
+        }
+        DD::exp_dd(&DD::mul_dd(p, &DD::ln_dd(x)))
+    }
+}
+
+fn dd_accurate() -> bool {
+    DD_ACCURATE.with(|l| *l.borrow())
 }
 
 impl MomTropFloat for DD {
@@ -354,9 +421,15 @@ impl MomTropFloat for DD {
         DD { hi: std::f64::consts::PI, lo: 1.2246467991473532e-16 }
     }
     fn ln(&self) -> Self {
+        if dd_accurate() {
+            return DD::ln_dd(self);
+        }
         dd_transcendental("ln", self, f64::ln)
     }
     fn exp(&self) -> Self {
+        if dd_accurate() {
+            return DD::exp_dd(self);
+        }
         dd_transcendental("exp", self, f64::exp)
     }
     fn cos(&self) -> Self {
@@ -366,6 +439,9 @@ impl MomTropFloat for DD {
         dd_transcendental("sin", self, f64::sin)
     }
     fn powf(&self, p: &Self) -> Self {
+        if dd_accurate() {
+            return DD::pow_dd(self, p);
+        }
         let e = p.hi;
         dd_transcendental("powf", self, move |x| f64::powf(x, e))
     }
@@ -396,4 +472,30 @@ impl MomTropFloat for DD {
 
 pub fn dd_to_q(d: &DD) -> Option<oracle::Q> {
     Some(oracle::num::qf_opt(d.hi)? + oracle::num::qf_opt(d.lo)?)
+}
+
+
+#[cfg(test)]
+mod tests {
+    use super::*;
+    #[test]
+    fn dd_exp_ln_roundtrip() {
+        for x in [0.3, 1.0, 2.5, 1e-8, 123.456, 1e-200, 7e150] {
+            let d = DD::from(x);
+            let l = DD::ln_dd(&d);
+            let e = DD::exp_dd(&l);
+            let diff = DD::add_dd(&e, &DD::neg_dd(&d));
+            assert!((diff.hi / x).abs() < 1e-29, "{x}: {:e}", diff.hi / x);
+        }
+        // exp(1)
+        let e1 = DD::exp_dd(&DD::from(1.0));
+        assert!((e1.hi - std::f64::consts::E).abs() < 1e-15);
+        assert!((e1.lo - 1.4456468917292502e-16).abs() < 1e-30, "{:e}", e1.lo);
+        // (x^p)^(1/p) = x
+        let x = DD { hi: 0.37, lo: 1e-18 };
+        let p = DD::from(1.0 / 3.0);
+        let y = DD::pow_dd(&DD::pow_dd(&x, &p), &DD::div_dd(&DD::from(1.0), &p));
+        let diff = DD::add_dd(&y, &DD::neg_dd(&x));
+        assert!(diff.hi.abs() < 1e-29, "{:e}", diff.hi);
+    }
 }
